@@ -157,10 +157,18 @@ def main(chk):
             continue
         t, w, rd = key
         sig = {"spec": "TypePipeline", "action": "pipeline", "type": t, "write": w, "read": rd,
-               "nested_compound_member_gt0": bool(cases[key][True]["nestedLater"])}
+               "nested_compound_member_gt0": bool(cases[key][True]["nestedLater"]),
+               "decorator_over_impl_column_expression": bool(cases[key][True]["dropsDecorators"])}
         if kind == "legacy":
             nfind += 1
-            chk.violation(dict(sig, finding="NestedCompoundCE", legacy_algorithm=True), "%s / %s / %s: %s" % (t, w, rd, text),
+            # which of the two pinned deviations the observation shows: a missing CE tag or missing decorator result stages
+            fv, lv = cases[key][True]["val"], cases[key][False]["val"]
+            classes = []
+            if fv.count("CE") != lv.count("CE"):
+                classes.append("NestedCompoundCE")
+            if [x for x in fv if x.startswith("r:")] != [x for x in lv if x.startswith("r:")] and not rd.startswith("nested"):
+                classes.append("ImplColumnExpressionDropsDecorator")
+            chk.violation(dict(sig, finding="+".join(classes), legacy_algorithm=True), "%s / %s / %s: %s" % (t, w, rd, text),
                           {"case": key, "errors": detail})
         else:
             chk.violation(dict(sig, finding="", legacy_algorithm=False), "%s / %s / %s: %s" % (t, w, rd, text), {"case": key, "errors": detail})
